@@ -118,6 +118,15 @@ def natToDec (n : Nat) : List Char := decDigits (n + 1) n
 
 def decValue (s : List Char) : Nat := s.foldl (fun a c => a * 10 + (c.toNat - 48)) 0
 
+/-- `f"[{host}]" if ":" in host and not host.startswith("[") else host` -/
+def renderHost (host : List Char) : List Char :=
+  if host.contains ':' && !(host.head? == some '[') then '[' :: host ++ [']'] else host
+
+/-- `urlunsplit` with a non-empty netloc: a non-empty path gets a leading slash if it lacks one -/
+def leadSlash : List Char → List Char
+  | [] => []
+  | c :: r => if c == '/' then c :: r else '/' :: c :: r
+
 def invalidUrl : List Char := "<invalid-url>".toList
 
 /-- `redact_url` before the `except (TypeError, ValueError)` collapse -/
@@ -130,13 +139,8 @@ def redactE (bracketOk : List Char → Bool) (url : List Char) : Except ParseErr
       let hi := hostInfo sp.netloc
       if hi.1.isEmpty then .error .invalid
       else
-        let host := lowerHost hi.1
-        let rendered := if host.contains ':' && !(host.head? == some '[') then '[' :: host ++ [']'] else host
-        let path := parsedPath sp
-        -- urlunparse: netloc is non-empty, so a non-empty path gets a leading slash if it lacks one
-        let path' := match path with
-          | [] => []
-          | c :: r => if c == '/' then c :: r else '/' :: c :: r
+        let rendered := renderHost (lowerHost hi.1)
+        let path' := leadSlash (parsedPath sp)
         if hi.2.isEmpty then .ok (sp.scheme ++ ':' :: '/' :: '/' :: rendered ++ path')
         else if hi.2.all isAsciiDigit && decValue hi.2 ≤ 65535 then
           .ok (sp.scheme ++ ':' :: '/' :: '/' :: rendered ++ ':' :: natToDec (decValue hi.2) ++ path')
